@@ -96,8 +96,9 @@ func (dc *dcache3) isEmpty(c *cube) bool {
 	// evaluate the SDF3 at the center of the cube
 	s := 1 << (c.n - 1) // half side
 	_, d := dc.evaluate(c.v.AddScalar(s))
-	// compare to the center/corner distance
-	return math.Abs(d) >= dc.hdiag[c.n]
+	// compare to the center/corner distance (strictly: at equality the surface
+	// can pass through corners of the cube)
+	return math.Abs(d) > dc.hdiag[c.n]
 }
 
 // Process a cube. Generate triangles, or more cubes.
